@@ -719,13 +719,20 @@ func (s *Server) handleConnectionLoop(conn net.Conn, procHandler *NFSProcedureHa
 
 	connID := fmt.Sprintf("conn-%d", s.nextConnID.Add(1))
 
-	var connRateLimiter *RateLimiter
-	if s.handler != nil {
-		connRateLimiter = s.handler.rateLimiter
+	// The rate limiter is replaced by policy updates: look it up for every
+	// request (under the policy lock) instead of capturing it once per
+	// connection, so that an established connection follows the policy in force.
+	currentRateLimiter := func() *RateLimiter {
+		if s.handler == nil || !s.handler.policyRWMu.TryRLock() {
+			// a policy drain is in progress: HandleCall will refuse the request anyway
+			return nil
+		}
+		defer s.handler.policyRWMu.RUnlock()
+		return s.handler.rateLimiter
 	}
 	defer func() {
-		if connRateLimiter != nil {
-			connRateLimiter.CleanupConnection(connID)
+		if rl := currentRateLimiter(); rl != nil {
+			rl.CleanupConnection(connID)
 		}
 	}()
 
@@ -776,7 +783,7 @@ func (s *Server) handleConnectionLoop(conn net.Conn, procHandler *NFSProcedureHa
 			}
 
 			// Check rate limit
-			if connRateLimiter != nil && s.handler != nil && s.handler.policy.Load().EnableRateLimiting {
+			if connRateLimiter := currentRateLimiter(); connRateLimiter != nil && s.handler.policy.Load().EnableRateLimiting {
 				if !connRateLimiter.AllowRequest(authCtx.ClientIP, connID) {
 					reply := &RPCReply{
 						Header: call.Header,
